@@ -1,7 +1,7 @@
 (** C12 — CountingPtr destroys its object exactly once, when the last owner lets go.
     Statements only; proofs live in C12/CPtrProofs.v (sequential histories) and C12/ConcProofs.v (interleavings). *)
 From Coq Require Import List Arith Bool.
-From TLXV Require Import C12.CPtr C12.CPtrProofs C12.UnifyProofs C12.Conc C12.ConcProofs C12.Examples.
+From TLXV Require Import C12.CPtr C12.CPtrProofs C12.UnifyProofs C12.Conc C12.ConcProofs C12.Nested C12.NestedProofs C12.Examples.
 Import ListNotations.
 
 (** Sequential part.  [nodel v] says that handle variable [v] carries the no-operation Deleter
@@ -104,6 +104,51 @@ Theorem C12_decfirst_variant_refuted :
   Inv s /\ bad (copy_assign alldef s 0 0) = false /\ bad (copy_assign_decfirst alldef s 0 0) = true.
 Proof. exact copy_assign_decfirst_refuted. Qed.
 Print Assumptions C12_decfirst_variant_refuted.
+
+(** Handles INSIDE managed objects (Nested.v: nodes with a member handle [next], [k] outer handles, operations
+    [v = new Node], [v = w], [v.reset()], [v->next = w], [v = w->next], [v = std::move(w->next)] - the last two with
+    [v = w] consume a list from its head, i.e. the source of the assignment is a member of the object being released).
+    For every history, with the committed statement order (retarget, release last): the count of every node is the
+    number of handles pointing to it - outer handles plus members of LIVE nodes -, the node has been destroyed exactly
+    once iff that number is zero, and no step, including the cascades of destructors through the members, touched a
+    destroyed node. No acyclicity hypothesis is needed for these statements (a cycle simply never reaches zero). *)
+Theorem C12_nested_count_is_handles : forall k ops o c,
+  let s := nrun (ninit k) ops in
+  nth_error (ncells s) o = Some c ->
+  nrc c = nhandles s o /\ ndc c = (if nhandles s o =? 0 then 1 else 0) /\ nbad s = false.
+Proof. exact nested_count_is_handles. Qed.
+Print Assumptions C12_nested_count_is_handles.
+
+Theorem C12_nested_member_points_to_live : forall k ops o c t,
+  let s := nrun (ninit k) ops in
+  nth_error (ncells s) o = Some c -> ndc c = 0 -> nnext c = Some t ->
+  exists ct, nth_error (ncells s) t = Some ct /\ ndc ct = 0 /\ 0 < nrc ct.
+Proof. exact nested_member_points_to_live. Qed.
+Print Assumptions C12_nested_member_points_to_live.
+
+(** The statement order shipped before ccc5d47 (release first, read [other.ptr_] afterwards), on the list
+    v1 -> node1 -> node0: [head = head->next] reads the member of the destroyed head; [head = std::move(head->next)]
+    moreover destroys the successor and leaves the head pointing to it.  On objects that hold plain data the two orders
+    compute the same state. *)
+Theorem C12_assign_from_member_shipped_refuted :
+  NInv chain2 /\
+  nbad (n_from_next chain2 1 1) = false /\ nbad (n_from_next_shipped chain2 1 1) = true.
+Proof. exact n_from_next_shipped_refuted. Qed.
+Print Assumptions C12_assign_from_member_shipped_refuted.
+
+Theorem C12_move_from_member_shipped_refuted :
+  let good := n_move_next chain2 1 1 in
+  let shipped := n_move_next_shipped chain2 1 1 in
+  nbad good = false /\ map ndc (ncells good) = [0; 1] /\ nvars good = [None; Some 0] /\
+  nbad shipped = true /\ map ndc (ncells shipped) = [1; 1] /\ nvars shipped = [None; Some 0].
+Proof. exact n_move_next_shipped_refuted. Qed.
+Print Assumptions C12_move_from_member_shipped_refuted.
+
+Theorem C12_assign_orders_agree_on_plain_objects : forall nodel s v w,
+  (live s v = true -> copy_assign_shipped nodel s v w = copy_assign nodel s v w) /\
+  move_assign_shipped nodel s v w = move_assign nodel s v w.
+Proof. intros. split; [apply copy_assign_shipped_eq|apply move_assign_shipped_eq]. Qed.
+Print Assumptions C12_assign_orders_agree_on_plain_objects.
 
 (** Concurrent part.  For every number of threads (length of [hs]), every initial distribution [hs] of at least one
     handle, and every interleaving [tr] of copy (begin, atomic increment), release (atomic decrement-and-test,
